@@ -556,7 +556,7 @@ static RETCODE adfBitmapAllocate ( struct AdfVolume * const vol )
 
     for ( unsigned i = 0 ; i < vol->bitmapSize ; i++ ) {
         vol->bitmapTable[i] = (struct bBitmapBlock*)
-            malloc ( sizeof(struct bBitmapBlock) );
+            calloc ( 1, sizeof(struct bBitmapBlock) );   /* bits of non-existing blocks stay 0 */
 
         if ( vol->bitmapTable[i] == NULL) {
             free ( vol->bitmapBlocksChg );
